@@ -267,6 +267,30 @@ v('C02 C13', 'fire', S, '''        if not self.with_altitude:
 v('C05 C17', 'fire', E, '    result[:, 0, 1] = -sin[:, 2] / cos[:, 1]', '    result[:, 0, 1] = -sin[:, 2] / cos[:, 0]', 'seeded C05: cos(roll) instead of cos(pitch)')
 
 
+v('C11', 'silent', F, '        x = Phi @ x\n        P = Phi @ P @ Phi.transpose() + Qd', '        x = Phi.dot(x)\n        P = Phi.dot(P).dot(Phi.T) + Qd', 'dot/.T spelling')
+v('C05', 'silent', E, """        result = np.linalg.inv(self._transform_to_output_3d(pva))
+        if not self.with_altitude:
+            result = self.TRANSFORM_2D_3D @ result
+        return result""", """        T = np.linalg.inv(self._transform_to_output_3d(pva))
+        if not self.with_altitude:
+            T = self.TRANSFORM_2D_3D @ T
+        return T""", 'local renamed')
+v('C07', 'silent', KA, 'U.dot(P).dot(U.T) + K.dot(R).dot(K.T)', '(P - K.dot(H.dot(P))).dot(U.T) + K.dot(R).dot(K.T)', 'Joseph form with (I-KH)P expanded, HP recomputed')
+v('C07', 'fire', KA, 'U.dot(P).dot(U.T) + K.dot(R).dot(K.T)', '(P - K.dot(HP)).dot(U.T) + K.dot(R).dot(K.T)', 'seeded C07: HP reused after overwrite_b=True')
+v('C01 C04', 'fire', K, """        sin_lat = np.sin(lat * transform.DEG_TO_RAD)
+        cos_lat = np.sqrt(1 - sin_lat * sin_lat)""", """        cos_lat = np.cos(lat * transform.DEG_TO_RAD)
+        sin_lat = np.sqrt(1 - cos_lat * cos_lat)""", 'seeded C01: sign of sin(lat) lost')
+v('C04 C16 C01', 'fire', 'earth.py', """    result[:, 0] = RATE * np.cos(np.deg2rad(lat))
+    result[:, 2] = -RATE * np.sin(np.deg2rad(lat))""", """    cos_lat = np.cos(np.deg2rad(lat))
+    sin_lat = np.sqrt(1 - cos_lat**2)
+    result[:, 0] = RATE * cos_lat
+    result[:, 2] = -RATE * sin_lat""", 'seeded C04: rate_n loses the sign of sin(lat)')
+v('C03', 'fire', SI, """        velocity_n = util.mv_prod(
+            mat_in, v_i_spline(time) - np.cross(earth_rate_i, r_i), True)""", """        mat_en = transform.mat_en_from_ll(lla[:, 0], lla[:, 1])
+        velocity_n = util.mv_prod(
+            mat_en, v_i_spline(time) - np.cross(earth_rate_i, r_i), True)""", 'seeded C03: wrong frame matrix in the position-only form')
+
+
 # ----------------------------------------------------------------------- runner
 def _run_variant(args):
     prop, var, root, check_py = args
